@@ -25,6 +25,8 @@ def Expr.nameFree : Expr → Bool
   | .or a b => a.nameFree && b.nameFree
   | .not a => a.nameFree
   | .ite c a b => c.nameFree && a.nameFree && b.nameFree
+  | .abs a => a.nameFree                 -- `abs`, `min`, `max` are not names for `_expr_has_name`
+  | .mm _ a b => a.nameFree && b.nameFree
 
 /-- `_infer_expr_type` on the fragment -/
 def inferTy (te : C.TyEnv) : Expr → Ty
@@ -38,6 +40,8 @@ def inferTy (te : C.TyEnv) : Expr → Ty
   | .or _ _ => .bool
   | .not _ => .bool
   | .ite _ a b => if inferTy te a = inferTy te b then inferTy te a else .int
+  | .abs _ => .int                       -- `_BUILTIN_CALL_RETURN_TYPES`
+  | .mm _ _ _ => .int
 
 /-- `_eval_const` on a name-free expression: Python's own value -/
 def evalConst (e : Expr) : Option Val := if e.nameFree then (Py.eval [] e).toOption else none
